@@ -21,8 +21,9 @@ def pad60(f):
     return f + '00' * max(0, 60 - len(f) // 2)
 
 
-def discover(mapper, gen, xid, stations=(), tos=0, eth_src=None, declared=None, pad=True):
-    f = base(tos, 0, BCAST, eth_src or mapper, BCAST, mapper, xid) + hx(gen, 2) + hx(len(stations) if declared is None else declared, 2) + ''.join(stations)
+def discover(mapper, gen, xid, stations=(), tos=0, eth_src=None, declared=None, pad=True, eth_dst=None):
+    # eth_dst: an access point that delivers broadcasts as per-station unicast (the real destination stays broadcast)
+    f = base(tos, 0, eth_dst or BCAST, eth_src or mapper, BCAST, mapper, xid) + hx(gen, 2) + hx(len(stations) if declared is None else declared, 2) + ''.join(stations)
     return pad60(f) if pad else f
 
 
